@@ -49,8 +49,9 @@ def parseIntDType? (s : String) : Option (Bool × Nat) :=
   | some ⟨.sint, w, 1⟩ => some (true, w)
   | _ => none
 
-/-- the logical array given by its C-order element list -/
-def arrOfC (shape : List Nat) (xs : List Elem) : List Nat → Elem :=
+/-- the logical array given by its C-order element list (held in an `Array`: O(1) lookups, so that
+    arrays of > 10^5 elements stay linear; `xs.toArray.getD j [] = xs.getD j []`, `List.getD_toArray`-style) -/
+def arrOfC (shape : List Nat) (xs : Array Elem) : List Nat → Elem :=
   fun i => xs.getD (ravelC shape i) []
 
 def report (file : List Nat) (hlen offset : Nat) (e : Endian) (t : DType) (shape : List Nat) : String :=
@@ -61,19 +62,22 @@ def report (file : List Nat) (hlen offset : Nat) (e : Endian) (t : DType) (shape
       let pad := (file.drop hlen).take (offset - hlen)
       "ok flen=" ++ toString file.length ++ " pad0=" ++ (if pad.all (· == 0) then "1" else "0") ++
       " data=" ++ hexOf ((file.drop offset).take n) ++ " tail=" ++ toString (file.length - offset - n) ++
-      " shape=" ++ showList sh ++ " vals=" ++ showElems ((enumC sh).map (loadedAt sh els))
+      -- `loadedAtA sh els.toArray i = loadedAt sh els i` (Lemmas/C01 `loadedAtA_eq`)
+      let ea := els.toArray
+      " shape=" ++ showList sh ++ " vals=" ++ showElems ((enumC sh).map (loadedAtA sh ea))
 
 def runRt (cls : String) (e : Endian) (t : DType) (offset : Option Nat) (shape : List Nat)
     (xs : List Elem) : String :=
   match lookupClass cls with
   | none => "bad-op"
   | some (layout, hlen, defOff, ftrLen, _, _) =>
+    let xa := xs.toArray
     if xs.length ≠ shape.prod then "bad-op"
     else if layout = "mgh" then
       if e ≠ .big ∨ offset.isSome then "bad-op"
       else
         let ishape := mghImageShape shape
-        match mghWrite (List.replicate hlen 1) (List.replicate ftrLen 2) t.cw ishape (arrOfC ishape xs) with
+        match mghWrite (List.replicate hlen 1) (List.replicate ftrLen 2) t.cw ishape (arrOfC ishape xa) with
         | .error er => errName er
         | .ok file => report file hlen mghDataOffset .big t ishape
     else
@@ -83,7 +87,7 @@ def runRt (cls : String) (e : Endian) (t : DType) (offset : Option Nat) (shape :
         | some o => if layout = "single" ∧ o = 0 then defOff else o
       if hlen > off then "ERR:HeaderDataError"
       else
-        let file := writeFile (List.replicate hlen 1) off e t.cw shape (arrOfC shape xs)
+        let file := writeFile (List.replicate hlen 1) off e t.cw shape (arrOfC shape xa)
         report file hlen off e t shape
 
 def handle : List String → String
